@@ -74,7 +74,11 @@ def generate(rng, tier):
                 if g.chance(1, 4): b = c06.vecs_of(g, r, c, cells)
                 else: b = ('T', r, c, c06.triplets_of(g, cells, 'rat', g.choice(["shuffle", "rowmajor", "reverse"])))
                 a = vval(g)
-                if a == 0 or a == 1: a = Fraction(-3, 2)
+                # scale factors 0 and 1 are part of "scaling the matrix scales every product" (a scale(0) that releases the
+                # storage but keeps col_start was only seen by the float tie: seeded mutation C07-4); one case in six each
+                if rep == 0: a = Fraction(0)
+                elif rep == 4: a = Fraction(1)
+                elif a == 0 or a == 1: a = Fraction(-3, 2)
                 cases.append(mk('rat', b, rvec(g, c), rvec(g, r), a, "shapes-le-10"))
     g = rng.fork("guards")
     for r in range(0, 4):
